@@ -33,6 +33,12 @@ Items (all paths relative to item['scope']):
     copy        copy_file(out, 'string')
     obj         object_file(name, file='string', includes=[vars / strings])
     link        executable/static_library(name, files=[obj vars + prebuilt], libs=[prebuilt])
+    out         references to existing files OUTSIDE the source tree (directory @OUT@,
+                substituted at materialisation; ext['outside'] = its files): absolute
+                strings and Path(.., Root.absolute) in extra_deps= of build_step /
+                object_file / executable / copy_file / command, extra_compile_deps=,
+                alias() dependencies, build_step files=, generic_file('/abs') in a
+                command line.  None of them belongs in the archive.
     tsrc        a source of a transpiled language (lex .l, Qt .qrc): handed as a plain
                 string to object_file(file=) / executable(files=[..]) / static_library(
                 files=[..]) (bfg9000 forwards it to generated_source itself), or, as a
@@ -66,6 +72,10 @@ FILE_FNS = {
 }
 LINKABLE_OBJ = ('object_file',)
 LINKABLE_LIB = ('static_library', 'shared_library', 'library')
+
+OUT = '@OUT@'      # placeholder for the absolute path of the outside directory
+OUTSIDE_FILES = {'dep.txt': 'outside dep\n', 'dep2.txt': 'outside dep2\n',
+                 'in.txt': 'outside input\n', 'c.txt': 'outside arg\n', 'd.h': '#define OUT\n'}
 
 FLT_DEF = '''def c18flt(p):
     b = p.basename()
@@ -337,6 +347,23 @@ def gen_ext(rng, spec):
             elif how in ('source_file', 'auto_file') and rng.random() < 0.3:
                 it['dist'] = False
             items.append(it)
+        # ---- references to files outside the source tree
+        if rng.random() < (0.7 if main else 0.35):
+            ext['outside'] = OUTSIDE_FILES
+            prev = None
+            for form in rng.sample(['step', 'obj', 'exe', 'copy', 'cmd', 'alias'],
+                                   rng.randint(1, 4)):
+                i = sid()
+                it = {'k': 'out', 'scope': sc, 'id': i, 'form': form, 'src': None,
+                      'abs': rng.choice(['string', 'path']), 'target': prev}
+                if form in ('obj', 'exe', 'copy'):
+                    it['src'] = 'xf/out%d%s' % (i, '.txt' if form == 'copy' else '.c')
+                    ext['files'][sc + it['src']] = dag.STUB_C if form != 'copy' else 'c18\n'
+                if form == 'alias' and prev is None:
+                    continue
+                items.append(it)
+                if form != 'alias':
+                    prev = i
         ext['items'] += items
     # ---- junk nobody mentions
     for p in rng.sample(['.gitignore', 'NOTES.junk', 'xf/unref.c', 'xjunk/todo.txt',
@@ -488,6 +515,30 @@ def render_item(it, stub='vrec'):
         incs = list(it['inc_vars']) + ([repr(it['inc_str'])] if it['inc_str'] else [])
         inc = ', includes=[%s]' % ', '.join(incs) if incs else ''
         L.append('xn%d = object_file(%r, file=%r%s)' % (it['id'], it['name'], it['src_str'], inc))
+    elif k == 'out':
+        def ab(name):
+            return repr(OUT + '/' + name) if it['abs'] == 'string' else \
+                'Path(%r, Root.absolute)' % (OUT + '/' + name)
+        i, form = it['id'], it['form']
+        if form == 'step':
+            L.append("xn%d = build_step('xq%d.out', cmd=[%r, '--id=%d', generic_file(%r), "
+                     "'--touch', build_step.output, '--end'], files=[%r], extra_deps=[%s, %s])"
+                     % (i, i, stub, i, OUT + '/c.txt', OUT + '/in.txt', ab('dep.txt'),
+                        "Path(%r, Root.absolute)" % (OUT + '/dep2.txt')))
+        elif form == 'obj':
+            L.append('xn%d = object_file(%r, file=%r, extra_deps=[%s])'
+                     % (i, 'xq%d' % i, it['src'], ab('d.h')))
+        elif form == 'exe':
+            L.append('xn%d = executable(%r, files=[%r], extra_compile_deps=[%s], extra_deps=[%s])'
+                     % (i, 'xq%d' % i, it['src'], ab('dep2.txt'), ab('dep.txt')))
+        elif form == 'copy':
+            L.append("xn%d = copy_file('xq%d.out', %r, extra_deps=[%s])"
+                     % (i, i, it['src'], ab('dep.txt')))
+        elif form == 'cmd':
+            L.append("xn%d = command('xq%d', cmd=[%r, '--id=%d'], extra_deps=[%s])"
+                     % (i, i, stub, i, ab('dep.txt')))
+        elif form == 'alias':
+            L.append("xn%d = alias('xq%d', [xn%d, %s])" % (i, i, it['target'], ab('dep.txt')))
     elif k == 'tsrc':
         how = it['how']
         if how == 'string':
@@ -534,7 +585,7 @@ def render(spec, ext, stub='vrec'):
         outs = []
         for it in its:
             L += render_item(it, stub)
-            if it['k'] in ('step', 'copy', 'obj', 'link', 'tsrc'):
+            if it['k'] in ('step', 'copy', 'obj', 'link', 'tsrc', 'out'):
                 outs.append('xn%d' % it['id'])
         L.append('c18outs = [%s]' % ', '.join(outs))
         for n, ch in enumerate(children(ext, sc)):
@@ -650,6 +701,10 @@ def dist_model(spec, ext, tree):
                 m.require(sc + p, 'string:extra_deps')
         elif k == 'copy':
             m.require(sc + it['src_str'], 'string:copy_file')
+        elif k == 'out':
+            if it['src']:
+                m.require(sc + it['src'], 'string:' + {'obj': 'object_file', 'exe': 'files',
+                                                       'copy': 'copy_file'}[it['form']])
         elif k == 'tsrc':
             if it['how'] == 'string':
                 m.require(sc + it['src'], 'string:transpiled-source')
@@ -688,6 +743,22 @@ class ExtModel(dag.Model):
                 objs[it['id']] = o
                 self._step('obj%d' % it['id'], it['id'], 'compile',
                            ['S:' + sc + it['src_str']], [o])
+            elif k == 'out':
+                i, form = it['id'], it['form']
+                if form == 'step':
+                    self._step('step%d' % i, i, 'step', [], ['B:' + sc + 'xq%d.out' % i])
+                elif form == 'obj':
+                    self._step('obj%d' % i, i, 'compile', ['S:' + sc + it['src']],
+                               ['B:' + sc + 'xq%d.o' % i])
+                elif form == 'exe':
+                    o = 'B:' + sc + 'xq%d.int/' % i + posixpath.splitext(it['src'])[0] + '.o'
+                    self._step('xobj%d' % i, i, 'compile', ['S:' + sc + it['src']], [o])
+                    self._step('xlink%d' % i, i, 'link', [o], ['B:' + sc + 'xq%d' % i])
+                elif form == 'copy':
+                    self._step('copy%d' % i, i, 'copy', ['S:' + sc + it['src']],
+                               ['B:' + sc + 'xq%d.out' % i])
+                elif form == 'cmd':
+                    self._step('cmd%d' % i, i, 'cmd', [], [], always=True)
             elif k == 'tsrc':
                 stem = posixpath.splitext(it['src'])[0]
                 gen_ext, obj_ext = [(e, o) for t, e, o in (('.l', '.yy.c', '.yy.o'),
